@@ -15,7 +15,7 @@ echo "== demo with patch (must fail)"
 PYTHONPATH="$W" timeout 300 /venv/bin/python out/$V/demo.py > /tmp/sv-$ID-$V.patched.log 2>&1; echo "patched demo exit=$?"
 tail -3 /tmp/sv-$ID-$V.patched.log
 echo "== stable tests with patch"
-mkdir -p "$W/.home"; HOME="$W/.home" /verif/tools/run_stable_tests.sh "$W" | tail -2
+mkdir -p "$W/.home"; (HOME="$W/.home" timeout 420 /verif/tools/run_stable_tests.sh "$W" || { echo "stable tests timed out/failed once: retry"; HOME="$W/.home" timeout 420 /verif/tools/run_stable_tests.sh "$W"; }) | tail -3
 echo "== our check against the patched tree"
 SFSIM_REPO="$W" /verif/check "$ID" "$@" 2>&1 | tail -5
 echo "check exit=$?"
